@@ -732,7 +732,7 @@ def run(chk) -> None:
 MANIFEST_ENTRY = {
     "text": "Static decision on the current source of the structural conditions of a correct fit: limits bound the right quantities and equal the writer's capacities, clean refusal by ValueError only, identity on fitting tables, "
     "one-to-one chain/residue maps applied to every row of every chain, frame condition on column stores, no fillna on categorical data, injective and complete rename map, guarded optional column. The renaming branch never "
-    "runs in the test suite; these rules cover it for all tables as far as the shape of the code determines it.",
+    "runs in the test suite; these rules cover it for all tables as far as the shape of the code determines it. Since round 4 can_write_pdb and fit_to_pdb are also interpreted as wholes on one table per input class (sa/frame.py), including pieces of a larger table, non-increasing row labels and tables at every limit; refusals are classified by the quantity they compute; fit-before-write on every path to write_pdb in splitter and unifier.",
     "note": "Trusted: pandas run-time semantics (groupby order, NaN keys in maps, coercions) - therefore the behavioural claim as a whole is not decided, only these necessary conditions.",
-    "technique": "static analysis: limit/quantity/width agreement, closed-world loop-body rule, frame condition on stores, dtype typestate, sibling agreement of rename map and writer preferences",
+    "technique": "static analysis: limit/quantity/width agreement, closed-world loop-body rule, frame condition on stores, dtype typestate, sibling agreement of rename map and writer preferences + whole-function evaluation of the ast on one table per input class over a pandas stand-in, path analysis of the CLI writers",
 }
